@@ -3,7 +3,8 @@
 //
 //	cfg [maxreq=N] [memreq=N] [maxresp=N] [memresp=N] [retry=<go expr> rx=<polish>] [hj=0|1] [verbose=1] [up=stream-verbose|rr-verbose]
 //	        -> ok | err expr
-//	req <method> <url> cl|ch <len> <seed> [h=K:V;K:V] [ct=form|multipart] a=<attempt> a=<attempt> ...
+//	req <method> <url> cl|ch <len> <seed> [h=K:V;K:V] [ct=form|multipart] [fr=u0] a=<attempt> a=<attempt> ...
+//	        (fr=u0, with ch: Buffer is handed the request with ContentLength 0 and a non-nil body of unknown length)
 //	        -> inv=N v=<view>... w=<status>|<hdrs>|<len:ck> hij=0|1 cl=ok left=N
 //
 // attempt = comma separated fields, executed by the protected handler in this order:
@@ -174,6 +175,9 @@ type exchange struct {
 	panicked bool
 	done     chan struct{}
 	token    string
+	// fr=u0: the request reaches Buffer re-dispatched in-process with net/http's "length unknown" convention for a reader it
+	// cannot size (ContentLength 0 together with a non-nil Body), as http.NewRequest builds it around a pipe or bufio reader
+	unknown0 bool
 }
 
 type scen struct {
@@ -240,6 +244,11 @@ func (s *scen) outer(w http.ResponseWriter, r *http.Request) {
 	}
 	defer close(ex.done)
 	ex.inHeader = r.Header.Clone()
+	if ex.unknown0 {
+		r.Body = io.NopCloser(hideReader{r.Body})
+		r.ContentLength = 0
+		r.TransferEncoding = nil
+	}
 	base := rec{w: w, ex: ex}
 	if s.hj {
 		s.entry.ServeHTTP(&recHJ{base}, r)
@@ -431,6 +440,12 @@ func (s *scen) doReq(f []string) string {
 		if strings.HasPrefix(t, "a=") {
 			ex.atts = append(ex.atts, parseAttempt(t[2:]))
 		}
+	}
+	if fr, _ := hx.KV(f[6:], "fr"); fr == "u0" {
+		if framing != "ch" {
+			return "bad-op"
+		}
+		ex.unknown0 = true
 	}
 	body := expand(n, seed)
 	req, err := http.NewRequest(method, s.srv.URL+url, nil)
